@@ -437,4 +437,21 @@ def helper_oracles(ctx, modname, funcs=None):
             def call(*args, _f=st):
                 return run_function(ctx.cfg(_f), _f, list(args), out)
             out[st.name] = call
+        elif isinstance(st, ast.ClassDef):
+            # methods a refactoring added: answered through `self.<name>` / `Class.<name>`; an instance method reads
+            # the fields of the caller's environment (same object)
+            for f in st.body:
+                if not isinstance(f, ast.FunctionDef) or (st.name + '.' + f.name) in base:
+                    continue
+                static = any(isinstance(d, ast.Name) and d.id == 'staticmethod' for d in f.decorator_list)
+
+                def mcall(env, *args, _f=f, _static=static):
+                    if _static:
+                        return run_function(ctx.cfg(_f), _f, list(args), out)
+                    e2 = {k: v for k, v in env.items() if k.startswith('self.') or k == 'self'}
+                    return run_function(ctx.cfg(_f), _f, [env.get('self')] + list(args), out, env=e2)
+                mcall._wants_env = True
+                mcall._static = static
+                for key in ('self.' + f.name, st.name + '.' + f.name):
+                    out.setdefault(key, mcall)
     return out
